@@ -49,8 +49,8 @@ extern pid_t mpt_stream_pipe(MPT_STRUCT(streaminfo) *stream, const char *file, c
 	
 	switch (pid = fork()) {
 	    case -1:
-		close(in[0]);
-		close(out[1]);
+		/* stream must not keep closed descriptors */
+		_mpt_stream_setfile(stream, -1, -1);
 		break;
 	    case 0:
 		if (dup2(out[0], 0) < 0) {
